@@ -3,6 +3,9 @@
 #include "env/stubs_base.h"
 #include "types.h"
 #include "spec/hmac.h"
+#if defined(H_aggr_calc_v1) || defined(H_ext_calc_v1)
+#define C06_SER_MAX 6          /* stated bound of the v1 jobs: every element (raw or serialized) is at most 6 bytes */
+#endif
 #if defined(H_aggr_calc_v2) || defined(H_aggr_calc_v1)
 #define C06_AGGR_CALC
 #define C06_CALC_STUBS
